@@ -9,7 +9,9 @@
    search selected).
 
    NOT proved (T19b/T19c of DESIGN; this property is therefore PARTIAL):
-     (1) forall curve, position_at 0 = first path point /\ position_at 1 = last;
+     (1) forall curve, position_at 0 = first path point /\ position_at 1 = last
+         (progress 0 IS proved below for curves without a leading zero-length
+         segment: C19_progress_zero_is_first_vertex; progress 1 is not);
      (2) forall a b, |position_at a - position_at b| <= |a - b| * dist;
      (3) forall i, position_at (lengths[i] / dist) = path[i].
    They are statements about real arithmetic (the cumulative lengths being the
@@ -119,6 +121,17 @@ Theorem C19_position_structure_partial :
           (f32_of_f64 (D.div (D.sub (progress_to_dist lengths p) d0) (D.sub d1 d0)))).
 Proof. exact position_at_shape. Qed.
 Print Assumptions C19_position_structure_partial.
+
+(* progress 0 -- hence, by clamping, every negative progress -- is EXACTLY the
+   first vertex, in IEEE arithmetic, for every curve whose total distance is
+   finite and whose cumulative lengths after the first are all positive
+   (no leading zero-length segment; no hypothesis on order or on the path) *)
+Theorem C19_progress_zero_is_first_vertex :
+  forall first path t,
+  finite64 (dist (D.zero :: t)) -> Forall positive64 t ->
+  position_at (first :: path) (D.zero :: t) D.zero = Done first.
+Proof. exact position_at_zero. Qed.
+Print Assumptions C19_progress_zero_is_first_vertex.
 
 (* ---------- concrete readings (dumps) ---------- *)
 
